@@ -3,3 +3,9 @@ RM = "runtime monitoring"
 claim("C17", "exploration", RM + ": exhaustive table sweeps + host-truth differential (os twin) over real client/server executions",
       "Exhaustive over the finite domains (2^16 wire words, 28672 os.FileModes, 4096 chmod values, 32 setstat flag subsets) and one object per file kind the host can create; long names compared on seeded entries. Held on everything executed; values outside those domains are not claimed.",
       "Trusts package os / the Linux kernel as ground truth, the harness's independent POSIX table and reference codec; runs as root.")
+claim("C06", "exploration", RM + ": three-way differential of both codecs against an independent reference codec over seeded packets; real client decoding scripted-peer replies",
+      "Seeded, boundary-biased packets of every type with all 32 attribute-flag subsets are encoded by packet.go (through sendPacket), by filexfer and by the reference codec and must be byte-identical, then decoded by every decoder and compared field by field; responses packet.go only encodes are decoded by the real client. Held on the packets generated (tens of thousands quick, ~0.5M thorough); the value space is sampled.",
+      "Trusts the harness's reference codec as the statement of the draft / OpenSSH layouts.")
+claim("C08", "fault_enumeration", RM + ": systematic mutation of valid encodings fed to every decoder, with recover(), child-process journal for fatal errors, allocation meter and counting reader",
+      "Every truncation point, every 4-byte window replaced by 7 hostile values, every type byte and random bodies, for each of 30 packet kinds, through ~25 decoding entry points of both codecs; frame readers with declared length x available bytes tables. Verdict: no panic/fatal error, allocation <= 64*len+1MiB, refused frames consume no body bytes. Held on ~200k (quick) decodes.",
+      "Affine allocation bound; single-goroutine allocation metering via runtime/metrics; RLIMIT_AS=3GiB children.")
